@@ -143,23 +143,33 @@ RECURSIVE PieceAt(_, _, _, _) \* index of the piece holding source byte e
 PieceAt(ps, i, off, e) == IF i > Len(ps) THEN 0 ELSE IF e <= off + Len(ps[i].s) THEN i ELSE PieceAt(ps, i + 1, off + Len(ps[i].s), e)
 CloserKind(ps, src, s) == LET e == LineEnd(src, s) pi == PieceAt(ps, 1, 0, e) IN IF e < s \/ pi = 0 THEN "none" ELSE ps[pi].k
 LastKind(ps) == IF Len(ps) = 0 THEN "none" ELSE ps[Len(ps)].k
-\* <<cause, detail>>
+\* the white-space text that directly follows the end of a statement spanning lines
+RECURSIVE AfterML(_, _, _, _, _)
+AfterML(ps, src, cls, i, off) ==
+  IF i > Len(ps) THEN {}
+  ELSE (IF ps[i].k = "stmt" /\ \E x \in DOMAIN ps[i].s : ps[i].s[x] = NLc THEN LeadRun(src, cls, off + Len(ps[i].s) + 1) ELSE {})
+       \cup AfterML(ps, src, cls, i + 1, off + Len(ps[i].s))
+\* <<cause, detail>>: the smallest class of removed bytes that explains `out`
 Cause(ps, out) ==
   LET src == Src(ps) cls == Cls(ps) may == MayIdx(src, cls)
       text == {k \in DOMAIN src : cls[k] \in {cT, cR}}
       starts == LineStartSet(src)
       lead == UNION {LeadRun(src, cls, s) : s \in starts}
+      aml == AfterML(ps, src, cls, 1, 0)
       e1 == EnvWith(ps, src, cls, may \cup lead)
-      e2 == EnvWith(ps, src, cls, may \cup {k \in text : src[k] \in WS})
-      e3 == EnvWith(ps, src, cls, text)
+      e2 == EnvWith(ps, src, cls, may \cup aml)
+      e3 == EnvWith(ps, src, cls, may \cup lead \cup aml)
+      e4 == EnvWith(ps, src, cls, may \cup {k \in text : src[k] \in WS})
+      e5 == EnvWith(ps, src, cls, text)
       \* the lines whose leading space must have been dropped to explain out
       needed == {s \in starts : LeadRun(src, cls, s) # {} /\
                      LET e == EnvWith(ps, src, cls, may \cup (lead \ LeadRun(src, cls, s))) IN ~Member(e, out)}
-  IN IF Member(e1, out)
-     THEN <<"leading-space-of-line-with-content-removed",
-            IF \A s \in needed : CloserKind(ps, src, s) = "comment" THEN "line-closed-by-comment" ELSE "line-closed-by-other">>
-     ELSE IF Member(e2, out) THEN <<"space-of-line-with-content-removed", LastKind(ps)>>
-     ELSE IF Member(e3, out) THEN <<"text-removed", LastKind(ps)>>
+      closer == IF \A s \in needed : CloserKind(ps, src, s) = "comment" THEN "line-closed-by-comment" ELSE "line-closed-by-other"
+  IN IF Member(e1, out) THEN <<"leading-space-of-line-with-content-removed", closer>>
+     ELSE IF Member(e2, out) THEN <<"space-after-multi-line-statement-removed-from-line-with-content", "-">>
+     ELSE IF Member(e3, out) THEN <<"leading-space-and-space-after-multi-line-statement-removed", "-">>
+     ELSE IF Member(e4, out) THEN <<"space-of-line-with-content-removed", LastKind(ps)>>
+     ELSE IF Member(e5, out) THEN <<"text-removed", LastKind(ps)>>
      ELSE <<"text-changed-or-added", LastKind(ps)>>
 
 (* =====================================================================================
@@ -171,9 +181,10 @@ RECURSIVE CountNL(_, _)
 CountNL(s, i) == IF i > Len(s) THEN 0 ELSE (IF s[i] = NLc THEN 1 ELSE 0) + CountNL(s, i + 1)
 NLs(s) == CountNL(s, 1)
 
-\* token: [t |-> "text"|"stmt"|"show"|"cmt", txt, lin, ct (the statement sets p.cutSpacesToken), val]
-Tok(t, txt, lin, ct, val) == [t |-> t, txt |-> txt, lin |-> lin, ct |-> ct, val |-> val]
-FlushText(buf, line) == IF buf = <<>> THEN <<>> ELSE <<Tok("text", buf, line + NLs(buf), FALSE, <<>>)>>
+\* token: [t |-> "text"|"stmt"|"show"|"cmt", txt, sl (pos.Line: the line it starts on), lin (token.lin: the
+\* lexer's line when it is emitted), ct (the statement sets p.cutSpacesToken), val]
+Tok(t, txt, sl, lin, ct, val) == [t |-> t, txt |-> txt, sl |-> sl, lin |-> lin, ct |-> ct, val |-> val]
+FlushText(buf, line) == IF buf = <<>> THEN <<>> ELSE <<Tok("text", buf, line, line + NLs(buf), FALSE, <<>>)>>
 
 \* which pieces set p.cutSpacesToken (parser.go: if, end, assignment, raw, comment, {{ render }};
 \* NOT var/const declarations, NOT a plain {{ show }})
@@ -188,21 +199,22 @@ RECURSIVE LexFrom(_, _, _, _)
 LexFrom(ps, i, line, buf) ==
   IF i > Len(ps) THEN FlushText(buf, line)
   ELSE LET p == ps[i] IN
-    CASE p.k = "text"    -> LexFrom(ps, i + 1, line, buf \o p.s)
+    CASE p.k = "text"    -> LET b2 == buf \o p.s IN LexFrom(ps, i + 1, line, b2)
       [] p.k = "shebang" -> LexFrom(ps, i + 1, line + 1, buf)          \* emit(tokenShebangLine); l.line++
       [] p.k = "comment" -> LET l1 == line + NLs(buf) l2 == l1 + NLs(p.s) IN     \* lexComment emits after counting its lines
-                            FlushText(buf, line) \o <<Tok("cmt", <<>>, l2, TRUE, <<>>)>> \o LexFrom(ps, i + 1, l2, <<>>)
+                            FlushText(buf, line) \o <<Tok("cmt", <<>>, l1, l2, TRUE, <<>>)>> \o LexFrom(ps, i + 1, l2, <<>>)
       [] p.k \in {"stmt", "show", "render"} ->
-                            LET l1 == line + NLs(buf) IN                            \* {% / {%% / {{ is emitted before its code is lexed
+                            LET l1 == line + NLs(buf) l2 == l1 + NLs(p.s) IN       \* {% / {%% / {{ is emitted before its code is lexed
                             FlushText(buf, line)
-                            \o <<Tok(IF p.k = "stmt" THEN "stmt" ELSE "show", <<>>, l1, SetsCutTok(p), IF p.k = "stmt" THEN <<>> ELSE p.v)>>
-                            \o LexFrom(ps, i + 1, l1 + NLs(p.s), <<>>)
+                            \o <<Tok(IF p.k = "stmt" THEN "stmt" ELSE "show", <<>>, l1, l1, SetsCutTok(p), IF p.k = "stmt" THEN <<>> ELSE p.v)>>
+                            \o LexFrom(ps, i + 1, l2, <<>>)
       [] p.k = "raw"     -> LET l1 == line + NLs(buf)
                                 l2 == l1 + NLs(p.v)                                 \* skipRawContent
-                            IN FlushText(buf, line) \o <<Tok("stmt", <<>>, l1, TRUE, <<>>)>>
+                                l3 == l2 + NLs(p.s) - NLs(p.v)
+                            IN FlushText(buf, line) \o <<Tok("stmt", <<>>, l1, l1, TRUE, <<>>)>>
                                \o FlushText(p.v, l1)
-                               \o <<Tok("stmt", <<>>, l2, TRUE, <<>>)>>             \* {% end %} sets cutSpacesToken
-                               \o LexFrom(ps, i + 1, l2 + NLs(p.s) - NLs(p.v), <<>>)
+                               \o <<Tok("stmt", <<>>, l2, l2, TRUE, <<>>)>>         \* {% end %} sets cutSpacesToken
+                               \o LexFrom(ps, i + 1, l3, <<>>)
 Lex(ps) == LexFrom(ps, 1, 1, <<>>)
 
 (* ---- parser: ParseTemplateSource's cut machine ---- *)
@@ -228,23 +240,37 @@ CutSpaces(toks, cuts, first, last) ==
           IN IF first = 0 THEN c1 ELSE [c1 EXCEPT ![first] = <<@[1], Len(toks[first].txt) - fc>>]
 
 \* `tok.pos.End == lastIndex`: the token's last byte is the file's last byte.  Only a text token and a
-\* comment token span their whole extent ({% {%% {{ are two/three-byte tokens).  eofAny = TRUE is the
-\* condition as written (any such token); eofAny = FALSE restricts it to text tokens.
-EndsFile(toks, i, eofAny) == i = Len(toks) /\ (toks[i].t = "text" \/ (eofAny /\ toks[i].t = "cmt"))
-NewLine(st, toks, i, eofAny) == st.line < toks[i].lin \/ EndsFile(toks, i, eofAny)
-WillCut(st) == st.ctok /\ st.num = 1
+\* comment token span their whole extent ({% {%% {{ are two/three-byte tokens).
+EndsFile(toks, i) == i = Len(toks) /\ toks[i].t \in {"text", "cmt"}
+NewLine(st, toks, i) == st.line < toks[i].lin \/ EndsFile(toks, i)
 TextIdx(toks, i) == IF toks[i].t = "text" THEN i ELSE 0
-\* the `if line < tok.lin || ...` block
-LineBlock(st, toks, i, cut) ==
+(* Two transcriptions of the `if line < tok.lin || tok.pos.End == lastIndex { ... }` block:
+   "head"  as written at the commit this family was developed against:
+              if p.cutSpacesToken && numTokenInLine == 1 { cutSpaces(firstText, text) }
+   "fix"   the proposed repair: a comment that starts on the line being closed is counted first, and a
+           text without line feed that does not end the file is not the end of the line being closed:
+              cut, n := p.cutSpacesToken, numTokenInLine
+              if tok.typ == tokenComment && tok.pos.Line == line { cut = true; n++ }
+              if cut && n == 1 { last := text; if last has no LF and tok does not end the file { last = nil }
+                                 cutSpaces(firstText, last) }                                            *)
+Variants == {"head", "fix"}
+CloserCounts(st, tok, variant) == variant = "fix" /\ tok.t = "cmt" /\ tok.sl = st.line
+WillCut(st, tok, variant) == (st.ctok \/ CloserCounts(st, tok, variant))
+                             /\ st.num + (IF CloserCounts(st, tok, variant) THEN 1 ELSE 0) = 1
+LastArg(toks, i, variant) ==
+  IF toks[i].t # "text" THEN 0
+  ELSE IF variant = "fix" /\ ~EndsFile(toks, i) /\ NLs(toks[i].txt) = 0 THEN 0
+  ELSE i
+LineBlock(st, toks, i, cut, variant) ==
   [line |-> toks[i].lin, first |-> TextIdx(toks, i), num |-> 0, ctok |-> FALSE,
-   cuts |-> IF cut THEN CutSpaces(toks, st.cuts, st.first, TextIdx(toks, i)) ELSE st.cuts]
+   cuts |-> IF cut THEN CutSpaces(toks, st.cuts, st.first, LastArg(toks, i, variant)) ELSE st.cuts]
 \* the `switch tok.typ` block
 Count(st, tok) == IF tok.t = "text" THEN st
                   ELSE [st EXCEPT !.num = @ + 1, !.ctok = @ \/ tok.ct]
-PStep(st, toks, i, eofAny) ==
-  LET s1 == IF NewLine(st, toks, i, eofAny) THEN LineBlock(st, toks, i, WillCut(st)) ELSE st IN Count(s1, toks[i])
+PStep(st, toks, i, variant) ==
+  LET s1 == IF NewLine(st, toks, i) THEN LineBlock(st, toks, i, WillCut(st, toks[i], variant), variant) ELSE st IN Count(s1, toks[i])
 RECURSIVE PRun(_, _, _, _)
-PRun(st, toks, i, eofAny) == IF i > Len(toks) THEN st ELSE LET s2 == PStep(st, toks, i, eofAny) IN PRun(s2, toks, i + 1, eofAny)
+PRun(st, toks, i, variant) == IF i > Len(toks) THEN st ELSE LET s2 == PStep(st, toks, i, variant) IN PRun(s2, toks, i + 1, variant)
 
 (* ---- emitter: Text[Cut.Left : len-Cut.Right], shows write their value ---- *)
 CutsInRange(toks, cuts) == \A i \in DOMAIN toks : cuts[i][1] + cuts[i][2] <= Len(toks[i].txt) \/ toks[i].t # "text"
@@ -254,8 +280,8 @@ EmitFrom(toks, cuts, i) ==
   ELSE (CASE toks[i].t = "text" -> Sub(toks[i].txt, cuts[i][1] + 1, Len(toks[i].txt) - cuts[i][2])
           [] toks[i].t = "show" -> toks[i].val
           [] OTHER -> <<>>) \o EmitFrom(toks, cuts, i + 1)
-ModelOutT(toks, eofAny) == LET fin == PRun(PS0(Len(toks)), toks, 1, eofAny) IN EmitFrom(toks, fin.cuts, 1)
-ModelOut(ps, eofAny) == LET toks == Lex(ps) IN ModelOutT(toks, eofAny)
+ModelOutT(toks, variant) == LET fin == PRun(PS0(Len(toks)), toks, 1, variant) IN EmitFrom(toks, fin.cuts, 1)
+ModelOut(ps, variant) == LET toks == Lex(ps) IN ModelOutT(toks, variant)
 
 (* =====================================================================================
    Piece catalogue (used by MC_Cut to generate; Trace_Cut never looks a piece up)
